@@ -7,7 +7,12 @@
                   reloaded trie re-encodes to the same root, has the same entries and the same
                   child tries as the in-memory state had before the write, the in-memory state is
                   unchanged by the write, and GetFromDB returns for every probed key
-                  exactly the entry of the in-memory state (nil for absent keys). *)
+                  exactly the entry of the in-memory state (nil for absent keys); every earlier
+                  block state of the history (HR groups) still reloads with the entries and child
+                  tries it had when it was persisted and reads back key by key;
+     hypotheses : the hypotheses of C04_write_dirty / C04_history are evaluated on the dumped
+                  tree: what the write skips (needs_clean) is in the database before the write,
+                  and no two different strings written or relied upon have the same hash. *)
 open Model
 open Vutil
 
@@ -59,6 +64,19 @@ let parse_entries c : (string * string) list =
   let n = int_of_string ("0x" ^ next c) in
   List.init n (fun _ -> ()) |> List.map (fun () -> let k = next c in let v = next c in (k, v))
 
+(* <load> ::= ok <root> <entries> CT <n> (<root> <entries>)*n | err | panic *)
+let parse_load c =
+  let lres = next c in
+  let lobs = (if lres = "ok" then begin
+      let r' = next c in
+      let e = parse_entries c in
+      expect c "CT";
+      let n = int_of_string ("0x" ^ next c) in
+      let ct = List.init n (fun _ -> ()) |> List.map (fun () -> let r = next c in let e = parse_entries c in (r, e)) in
+      Some (r', e, ct)
+    end else None) in
+  (lres, lobs)
+
 let entries_str (l : (string * string) list) =
   "E " ^ Printf.sprintf "%x" (List.length l) ^ String.concat "" (List.map (fun (k, v) -> " " ^ k ^ " " ^ v) l)
 
@@ -66,9 +84,8 @@ let model_entries (t : tnode option) : (string * string) list =
   List.sort compare (List.map (fun (k, v) -> (hex_of_bytes k, hex_of_bytes v)) (entries t))
 
 (* a branch whose value was deleted may keep a stale MustBeHashed flag; it encodes like the same
-   node without the flag (the model reproduces the stray database entry the flag causes) *)
-let rec norm (TN (pk, sv, mbh, cs)) =
-  TN (pk, sv, (mbh && sv <> None), List.map (function None -> None | Some c -> Some (norm c)) cs)
+   node without the flag (Model.norm, C04_history_reads_norm; the model reproduces the stray
+   database entry the flag causes) *)
 
 let root_of (t : tnode option) : byte list =
   match t with None -> empty_root hash_memo | Some n -> hash_memo (encode hash_memo n)
@@ -113,6 +130,8 @@ let check inp obs =
   if String.length probe <> 4 then fail "C04: bad probe %s" probe;
   let st = (probe.[1] = '1', probe.[2] = '1') and dfix = probe.[3] = '1' in
   let db = ref [] in
+  let inj_tbl : (string, byte list) Hashtbl.t = Hashtbl.create 256 in
+  let past : (string * ((string * string) list * (string * (string * string) list) list)) list ref = ref [] in
   let prop_bad = ref [] and model_bad = ref [] in
   let tags = Hashtbl.create 16 in
   let nontrivial = ref false in
@@ -143,22 +162,30 @@ let check inp obs =
     let ndb = int_of_string ("0x" ^ next c) in
     let dump = List.init ndb (fun _ -> ()) |> List.map (fun () -> let k = next c in let v = next c in (k, v)) in
     expect c "L";
-    let lres = next c in
-    let lobs = (if lres = "ok" then begin
-        let r' = next c in
-        let e = parse_entries c in
-        expect c "CT";
-        let n = int_of_string ("0x" ^ next c) in
-        let ct = List.init n (fun _ -> ()) |> List.map (fun () -> let r = next c in let e = parse_entries c in (r, e)) in
-        Some (r', e, ct)
-      end else None) in
+    let (lres, lobs) = parse_load c in
     expect c "G";
     let ng = int_of_string ("0x" ^ next c) in
     let probes = List.init ng (fun _ -> ()) |> List.map (fun () ->
         let k = next c in let truth = next c in let dbv = next c in (k, truth, dbv)) in
+    (* earlier states of the history, re-read after this write (absent in old replay files) *)
+    let hist = (if peek c = "HR" then begin
+        expect c "HR";
+        let n = int_of_string ("0x" ^ next c) in
+        List.init n (fun _ -> ()) |> List.map (fun () ->
+            let hr = next c in
+            let (hres, hobs) = parse_load c in
+            expect c "HG";
+            let m = int_of_string ("0x" ^ next c) in
+            let reads = List.init m (fun _ -> ()) |> List.map (fun () -> let k = next c in let v = next c in (k, v)) in
+            (hr, hres, hobs, reads))
+      end else []) in
     (* ---------------- model *)
     let tt = (match t with None -> None | Some w -> Some (erase w)) in
-    (match tt with Some n -> if not (wf_node (norm n)) then mbad "tree-not-wf" | None -> ());
+    (match tt with
+     | Some n ->
+       if not (wf_node (norm n)) then mbad "tree-not-wf";
+       if norm n <> n then Hashtbl.replace tags "stale-mustbehashed-flag" ()
+     | None -> ());
     if me <> [] then nontrivial := true;
     (match t with Some w -> wnode_stats w true tags | None -> Hashtbl.replace tags "empty-trie" ());
     if nc > 0 then Hashtbl.replace tags "child-tries" ();
@@ -167,6 +194,26 @@ let check inp obs =
     if hex_of_bytes mroot <> r then mbad "root";
     if model_entries tt <> me then mbad "entries";
     let wchildren = List.filter_map (fun x -> x) children in
+    (* hypotheses of C04_write_dirty / C04_history on this reachable state: what the write skips is
+       already in the database (each trie checked against the table as the earlier tries of the same
+       WriteDirty leave it), and the hash does not collide on the strings written or relied upon *)
+    let check_hyp (dcur : (byte list * byte list) list) (w : wnode) =
+      let nc = needs_clean hash_memo true w in
+      if nc <> [] then Hashtbl.replace tags "hyp-skipped-clean-subtrees" ();
+      List.iter (fun (k, v) ->
+          match db_get dcur k with
+          | Some v' when v' = v -> ()
+          | _ -> mbad ("hypothesis needs_clean: " ^ hex_of_bytes k ^ " not in the table before the write")) nc;
+      let strings = List.map snd (wd_puts hash_memo true w @ nc @ needs hash_memo true (erase w)) in
+      List.iter (fun sx ->
+          let h = hex_of_bytes (hash_memo sx) in
+          match Hashtbl.find_opt inj_tbl h with
+          | Some sy when sy <> sx -> mbad ("hypothesis H_inj_on: collision on " ^ h)
+          | Some _ -> ()
+          | None -> Hashtbl.add inj_tbl h sx) strings;
+      fst (write_dirty_node hash_memo true dcur w) in
+    ignore (List.fold_left check_hyp !db ((match t with Some w -> [w] | None -> []) @ wchildren));
+    Hashtbl.replace tags "hyp-checked" ();
     let db' = write_dirty_fixed hash_memo !db t wchildren in
     let db_pinned = write_dirty_pinned hash_memo !db t wchildren in
     if db_dump db_pinned <> db_dump db' then Hashtbl.replace tags "pinned-writedirty-differs" ();
@@ -196,6 +243,37 @@ let check inp obs =
         Hashtbl.replace tags (if truth = "nil" then "probe-absent" else "probe-present") ();
         (* property *)
         if dbv <> truth then pbad (Printf.sprintf "GetFromDB(%s)=%s state=%s" k dbv truth)) probes;
+    (* ---------------- earlier states of the history *)
+    List.iter (fun (hr, hres, hobs, reads) ->
+        Hashtbl.replace tags "history-reread" ();
+        let hroot = bytes_of_hex hr in
+        let mh = (match load_all hash_memo st dfix (nat_of_int 200) d hroot with
+          | Ok (lt, cts) ->
+            let cts = List.sort_uniq compare (List.map (fun (h, ct) -> (hex_of_bytes h, model_entries ct)) cts) in
+            Some (hex_of_bytes (root_of lt), model_entries lt, cts)
+          | _ -> None) in
+        if mh <> hobs then mbad ("history load " ^ hr ^ " (" ^ hres ^ ")");
+        (match List.assoc_opt hr !past with
+         | None -> mbad ("history root " ^ hr ^ " was never persisted")
+         | Some (pme, pmc) ->
+           (match hobs with
+            | None -> pbad ("earlier state " ^ hr ^ " no longer loads: " ^ hres)
+            | Some (r', e, ct) ->
+              if r' <> hr then pbad ("earlier state " ^ hr ^ ": reloaded root differs");
+              if e <> pme then pbad ("earlier state " ^ hr ^ ": reloaded entries differ");
+              List.iter (fun (k, v) ->
+                  if starts_with k child_prefix_hex then
+                    match List.assoc_opt v pmc, List.assoc_opt v ct with
+                    | Some a, Some b -> if a <> b then pbad ("earlier state " ^ hr ^ ": child trie " ^ v ^ " differs")
+                    | None, _ -> ()
+                    | _, None -> pbad ("earlier state " ^ hr ^ ": child trie " ^ v ^ " not reloaded")) pme);
+           List.iter (fun (k, dbv) ->
+               let m = res_str (get_from_db_fixed hash_memo st dfix d hroot (bytes_of_hex k)) in
+               if m <> dbv then mbad ("history get " ^ hr ^ " " ^ k ^ " model=" ^ m);
+               let truth = (match List.assoc_opt k pme with Some v -> "v:" ^ v | None -> "nil") in
+               if dbv <> truth then
+                 pbad (Printf.sprintf "earlier state %s: GetFromDB(%s)=%s state=%s" hr k dbv truth)) reads)) hist;
+    past := (r, (me, mc)) :: !past;
     (* ---------------- property on the implementation's observables *)
     if w <> "ok" then pbad "WriteDirty failed";
     if ma <> me then pbad "WriteDirty changed the in-memory state";
@@ -219,4 +297,59 @@ let check inp obs =
     tags = String.concat "," tagl;
     detail = String.concat "; " (List.rev !prop_bad @ List.map (fun s -> "MODEL " ^ s) (List.rev !model_bad)) }
 
-let () = run_driver check
+(* ---------------------------------------------------------------- vm_compute cross-check
+   The first persisted state of a sampled history re-evaluated inside Coq (coq/C04/VmCheck.v): the
+   model's WriteDirty of the dumped tree must contain every binding of the dumped table, the root
+   hash must be the observed one, Load must rebuild a trie with that root and the first point reads
+   must give what GetFromDB gave. *)
+let rec coq_wnode (WN (pk, sv, mbh, dirty, cs)) : string =
+  Printf.sprintf "(WN %s %s %b %b [%s])" (coq_bytes pk)
+    (match sv with None -> "None" | Some v -> "(Some " ^ coq_bytes v ^ ")") mbh dirty
+    (String.concat "; " (List.map (function None -> "None" | Some c -> "Some " ^ coq_wnode c) cs))
+
+let coq _inp obs =
+  if obs = "hang" || obs = "panic" then None else
+  try
+    let c = { tok = Array.of_list (split_ws obs); pos = 0 } in
+    let probe = next c in
+    let b ch = if ch = '1' then "true" else "false" in
+    if peek c <> "S" then None else begin
+      expect c "S"; expect c "T";
+      match parse_root c with
+      | None -> None
+      | Some w ->
+        expect c "C";
+        let nc = int_of_string ("0x" ^ next c) in
+        let children = List.init nc (fun _ -> ()) |> List.map (fun () -> parse_root c) in
+        expect c "ME"; ignore (parse_entries c);
+        expect c "MC";
+        let nmc = int_of_string ("0x" ^ next c) in
+        List.init nmc (fun _ -> ()) |> List.iter (fun () -> ignore (next c); ignore (parse_entries c));
+        expect c "R";
+        let r = next c in
+        expect c "W"; ignore (next c);
+        expect c "MA"; ignore (parse_entries c);
+        expect c "DB";
+        let ndb = int_of_string ("0x" ^ next c) in
+        let dump = List.init ndb (fun _ -> ()) |> List.map (fun () -> let k = next c in let v = next c in (k, v)) in
+        expect c "L"; ignore (parse_load c);
+        expect c "G";
+        let ng = int_of_string ("0x" ^ next c) in
+        let probes = List.init ng (fun _ -> ()) |> List.map (fun () ->
+            let k = next c in let _ = next c in let dbv = next c in (k, dbv)) in
+        let size = List.fold_left (fun a (k, v) -> a + String.length k + String.length v) 0 dump in
+        if size > 3000 then None else
+        let rec take n l = if n = 0 then [] else (match l with [] -> [] | x :: t -> x :: take (n - 1) t) in
+        let probes = List.filter (fun (_, v) -> v = "nil" || (String.length v > 2 && String.sub v 0 2 = "v:")) (take 12 probes) in
+        let pair (k, v) = Printf.sprintf "(%s, %s)" (coq_bytes (bytes_of_hex k)) (coq_bytes (bytes_of_hex v)) in
+        let ppair (k, v) = Printf.sprintf "(%s, %s)" (coq_bytes (bytes_of_hex k))
+            (if v = "nil" then "None" else "Some " ^ coq_bytes (bytes_of_hex (String.sub v 2 (String.length v - 2)))) in
+        Some (Printf.sprintf "first_store_ok (%s, %s) %s %s [%s] %s [%s] [%s]"
+                (b probe.[1]) (b probe.[2]) (b probe.[3]) (coq_wnode w)
+                (String.concat "; " (List.filter_map (function None -> None | Some x -> Some (coq_wnode x)) children))
+                (coq_bytes (bytes_of_hex r))
+                (String.concat "; " (List.map pair dump)) (String.concat "; " (List.map ppair probes)))
+    end
+  with _ -> None
+
+let () = run_driver ~coq check
